@@ -16,6 +16,9 @@ from .strmodel import SymStr, StrSlice
 from .h_c20 import install_box_models
 
 OPS = ["enter_local", "enter_subroutine", "exit", "bind_int", "bind_qubit", "lookup"]
+# second family: histories over gate / hardware-qubit bindings, after which the listing observers gates() and hardware_qubits() are
+# compared with the oracle (every listed id denotes the listed name with the listed type, in id order, `U` left out)
+OPS_OBS = ["enter_local", "exit", "bind_int", "bind_gate", "bind_hw"]
 BUILTINS = [("pi", "Float"), ("π", "Float"), ("euler", "Float"), ("ℇ", "Float"), ("tau", "Float"), ("τ", "Float"), ("U", "Gate")]
 
 
@@ -202,15 +205,16 @@ class Family:
         self.TV = self.prog.enums["Type"][0]
         self.ST = self.prog.enums["ScopeType"][0]
         M = lambda n: self.prog.methods.get(("SymbolTable", None, n))
-        self.m = {n: M(n) for n in ("new", "enter_scope", "exit_scope", "new_binding", "lookup", "len_current_scope", "in_global_scope", "index")}
+        self.m = {n: M(n) for n in ("new", "enter_scope", "exit_scope", "new_binding", "lookup", "len_current_scope", "in_global_scope", "index", "gates", "hardware_qubits")}
         for n, f in self.m.items():
             if f is None:
                 raise RuntimeError("SymbolTable::" + n + " not found in MIR")
 
 
 class HistHarness:
-    def __init__(self, h, seed, with_global=False):
-        self.h = h; self.seed = seed; self.with_global = with_global
+    def __init__(self, h, seed, with_global=False, observers=False):
+        self.h = h; self.seed = seed; self.with_global = with_global; self.observers = observers
+        self.ops = OPS_OBS if observers else OPS
 
     def make_exec(self):
         self.fam = Family(self.seed)
@@ -224,6 +228,10 @@ class HistHarness:
         TV = self.fam.TV
         if name == "int":
             return EnumV("Type", TV.index("Int"), [EnumV("Option", 1, [32]), 1])
+        if name == "gate":
+            return EnumV("Type", TV.index("Gate"), [1, 2])
+        if name == "hw":
+            return EnumV("Type", TV.index("HardwareQubit"), [])
         return EnumV("Type", TV.index("Qubit"), [])
 
     def type_name(self, v):
@@ -242,13 +250,14 @@ class HistHarness:
             stack[0][nm] = len(allsyms); allsyms.append((nm, ty))
         self.check_builtins(ex, tref, allsyms)
         hist = []
+        OPS = self.ops
         nops = len(OPS) + (1 if self.with_global else 0)
         for i in range(self.h):
             op = SV(z3.BitVec(f"op{i}", 8), 8)
             ex.add_constraint(z3.ULT(op.e, nops))
             k = ex.choose([(j, op.e == j) for j in range(nops)])
             opname = OPS[k] if k < len(OPS) else "enter_global"
-            if opname in ("bind_int", "bind_qubit", "lookup"):
+            if opname in ("bind_int", "bind_qubit", "lookup", "bind_gate", "bind_hw"):
                 c = SV(z3.BitVec(f"name{i}", 32), 32)
                 ex.add_constraint(z3.Or(c.e == ord("a"), c.e == ord("b")))
                 name = StrSlice(SymStr([c], f"n{i}"), 0, 1)
@@ -261,7 +270,53 @@ class HistHarness:
             except explore_stop:
                 return len(hist)      # documented panic observed: the history ends here
             self.invariants(ex, tref, stack, allsyms)
+            if self.observers:
+                self.listings(ex, tref, allsyms)
         return len(hist)
+
+    def listings(self, ex, tref, allsyms):
+        """gates() and hardware_qubits(): exactly the gate / hardware-qubit symbols ever bound (closed scopes included), in id order,
+        each with the id under which new_binding handed it out, its name and its parameter counts; the built-in U is left out"""
+        from . import stdmodels
+        fam = self.fam; m = fam.m
+        ex.obligations += 1
+        def sid_of(x):
+            while isinstance(x, Ref):
+                x = x.get()
+            return x[0] if isinstance(x, list) else x
+        def drain(v):
+            v0 = v
+            while isinstance(v0, Ref):
+                v0 = v0.get()
+            if isinstance(v0, VecV):
+                return list(v0.items)
+            it = stdmodels.as_iter(ex, v)
+            out = []
+            while True:
+                x = it.next(ex)
+                if x is None:
+                    return out
+                out.append(x)
+                if len(out) > 64:
+                    raise Violation("listing does not end")
+        def name_ok(got, nm):
+            if isinstance(nm, str):
+                return strmodel.as_slice(got).chars() == [ord(c) for c in nm]
+            return key_eq(ex, got, nm)
+        for meth, tyname, arity in (("gates", "Gate", 4), ("hardware_qubits", "HardwareQubit", 2)):
+            got = drain(ex.run(m[meth], [tref]))
+            want = [(sid, nm) for sid, (nm, ty) in enumerate(allsyms) if ty == tyname and nm != "U"]
+            if len(got) != len(want):
+                raise Violation(f"{meth}() lists {len(got)} symbols, {len(want)} {tyname} symbols were bound")
+            for g, (sid, nm) in zip(got, want):
+                while isinstance(g, Ref):
+                    g = g.get()
+                if sid_of(g[1]) != sid:
+                    raise Violation(f"{meth}() lists symbol id {sid_of(g[1])} where the id handed out by new_binding is {sid}")
+                if not name_ok(g[0], nm):
+                    raise Violation(f"{meth}() lists id {sid} under another name than it was bound with")
+                if arity == 4 and (g[2], g[3]) != (1, 2):
+                    raise Violation(f"gates() lists id {sid} with parameter counts {(g[2], g[3])}, it was bound as Gate(1, 2)")
 
     # the oracle resolves symbolic names with the same solver-backed comparison
     def o_find(self, ex, scope, name):
@@ -295,8 +350,8 @@ class HistHarness:
                 raise Violation("the global scope was popped without the documented assertion failure")
             ex.run(m["exit_scope"], [tref])
             stack.pop()
-        elif opname in ("bind_int", "bind_qubit"):
-            ty = "int" if opname == "bind_int" else "qubit"
+        elif opname in ("bind_int", "bind_qubit", "bind_gate", "bind_hw"):
+            ty = opname[5:]
             r = ex.run(m["new_binding"], [tref, name, Ref([self.typ(ty)], 0)])
             have = self.o_find(ex, stack[-1], name)
             if have is not None:
@@ -310,7 +365,7 @@ class HistHarness:
                 if sid != len(allsyms):
                     raise Violation(f"symbol id {sid} handed out, expected the next unused id {len(allsyms)}")
                 stack[-1][name] = len(allsyms)
-                allsyms.append((name, "Int" if ty == "int" else "Qubit"))
+                allsyms.append((name, {"int": "Int", "qubit": "Qubit", "gate": "Gate", "hw": "HardwareQubit"}[ty]))
         elif opname == "lookup":
             r = ex.run(m["lookup"], [tref, name])
             want = None
@@ -384,9 +439,9 @@ class explore_stop(Exception):
     pass
 
 
-def hfactory(h, seed, with_global):
+def hfactory(h, seed, with_global, observers=False):
     def f():
-        return HistHarness(h, seed, with_global)
+        return HistHarness(h, seed, with_global, observers)
     return f
 
 
@@ -400,12 +455,13 @@ def native_history_check(hist):
         if p[0] in enc:
             ops.append(enc[p[0]])
         else:
-            ops.append({"bind_int": "bi", "bind_qubit": "bq", "lookup": "l"}[p[0]] + ":" + p[1])
+            ops.append({"bind_int": "bi", "bind_qubit": "bq", "bind_gate": "bg", "bind_hw": "bh", "lookup": "l"}[p[0]] + ":" + p[1])
     o = native.run_one("symhist " + ",".join(ops), "dev")
     if native.failed(o):
         return True, "native failure " + str(o)[:150]
     stack = [{n: i for i, (n, _) in enumerate(BUILTINS)}]
     types = [t for _, t in BUILTINS]
+    names = [n for n, _ in BUILTINS]
     nxt = len(BUILTINS)
     import re
     for h, r in zip(hist, o["results"]):
@@ -424,7 +480,7 @@ def native_history_check(hist):
             if r != "ok":
                 return True, f"{h}: {r}"
             stack.pop()
-        elif p[0] in ("bind_int", "bind_qubit"):
+        elif p[0] in ("bind_int", "bind_qubit", "bind_gate", "bind_hw"):
             if p[1] in stack[-1]:
                 if not r.startswith("Err"):
                     return True, f"{h}: rebinding in the same scope gave {r}"
@@ -432,10 +488,10 @@ def native_history_check(hist):
                 parts = r.split("|")
                 if parts[0] != f"Ok(SymbolId({nxt}))":
                     return True, f"{h}: got {r}, expected id {nxt}"
-                want_ty = "Int" if p[0] == "bind_int" else "Qubit"
+                want_ty = {"bind_int": "Int", "bind_qubit": "Qubit", "bind_gate": "Gate", "bind_hw": "HardwareQubit"}[p[0]]
                 if len(parts) == 3 and (parts[1] != p[1] or not parts[2].startswith(want_ty)):
                     return True, f"{h}: the table says id {nxt} denotes `{parts[1]}` of type {parts[2]}, the binding was `{p[1]}` of type {want_ty}"
-                stack[-1][p[1]] = nxt; types.append("Int" if p[0] == "bind_int" else "Qubit"); nxt += 1
+                stack[-1][p[1]] = nxt; types.append(want_ty); names.append(p[1]); nxt += 1
         else:
             want = None
             for sc in reversed(stack):
@@ -451,6 +507,13 @@ def native_history_check(hist):
     # exiting a scope removes exactly its own bindings: the current scope holds what the oracle's innermost map holds
     if "len_current_scope" in o and len(o["results"]) == len(hist) and o["len_current_scope"] != len(stack[-1]):
         return True, f"after the history the current scope holds {o['len_current_scope']} names, the stack-of-maps oracle {len(stack[-1])}"
+    if len(o["results"]) == len(hist) and "gates" in o:
+        wg = [f"{names[i]}|SymbolId({i})|1|2" for i in range(len(types)) if types[i] == "Gate" and names[i] != "U"]
+        wh = [f"{names[i]}|SymbolId({i})" for i in range(len(types)) if types[i] == "HardwareQubit"]
+        if o["gates"] != wg:
+            return True, f"gates() lists {o['gates']}, the gate symbols bound are {wg}"
+        if o["hardware_qubits"] != wh:
+            return True, f"hardware_qubits() lists {o['hardware_qubits']}, bound are {wh}"
     return False, ""
 
 
@@ -473,6 +536,15 @@ def run(ctx):
             res.inconclusive.append(err[:600])
         if not exhaustive:
             res.inconclusive.append(f"h={h} not exhausted")
+    HO = int(os.environ.get("VERIF_C19_HOBS", 4 if ctx.quick() else 5))
+    for h in range(1, HO + 1):
+        st, exhaustive, err = explore.explore(hfactory(h, ctx.seed, False, observers=True), workers=ctx.workers, seed=ctx.seed, on_records=on_records, log=ctx.log)
+        res.merge_stats(st)
+        ctx.log(f"observer histories of length {h}: {st.get('paths', 0)} paths ok={st.get('ok', 0)} violation={st.get('violation', 0)} panic={st.get('panic', 0)} unsupported={st.get('unsupported', 0)} wall={st.get('wall', 0):.1f}s")
+        if err:
+            res.inconclusive.append(err[:600])
+        if not exhaustive:
+            res.inconclusive.append(f"observer h={h} not exhausted")
     for site, info in fails.items():
         r = info["ex"]
         if r[1] == "unsupported":
